@@ -148,6 +148,18 @@ def main():
     if len(sys.argv) >= 4 and sys.argv[2] == "--replay":
         path = sys.argv[3]
         j = json.load(open(path))
+        if j.get("kind") == "history":
+            sim = build(j.get("variant", "prod"))
+            outs = {}
+            for mode, extra in (("shared", []), ("isolated", ["--isolate"])):
+                for jobs in (5, 16):
+                    out = "build/tmp/hist-%s-%d.txt" % (mode, jobs)
+                    sh([sim, "run", "--engine", j["engine"], "--prop", "C19", "--tier", j.get("tier", "quick"), "--seed", str(j["seed"]), "--runs", str(j["runs"]), "--jobs", str(jobs), "--no-baseline",
+                        "--dump-hashes", out, "--out", "build/tmp/hist.json"] + extra, stdout=subprocess.DEVNULL, stderr=subprocess.DEVNULL)
+                    outs[(mode, jobs)] = open(out).read() if os.path.exists(out) else None
+            if outs[("isolated", 5)] == outs[("isolated", 16)] and outs[("shared", 5)] != outs[("shared", 16)]:
+                print("VIOLATION property=C19 replay=%s" % path); print("  class=depends-on-earlier-calls"); sys.exit(1)
+            print("replay: no violation of C19"); sys.exit(0)
         if j.get("kind") == "static":
             sim = build("prod")
             syms, heap, _ = side_check_symbols(prop, sim)
@@ -255,8 +267,32 @@ def main():
             print("  class=%s the objects built from the working tree contain writable data symbols %s / allocator imports %s" % ("writable-static-data" if syms else "heap-import", syms[:6], heap))
             violation = {"class": "writable-static-data" if syms else "heap-import", "replay": path}
 
+    history_dependent = None
     if det_fault and not violation and not fault:
-        fault = det_fault
+        # Is it the library that carries something from one run to the next (a writable static, stack residue it reads)?
+        # Repeat the sample with every run in a process of its own: if the hashes then agree between worker counts, the
+        # simulator is deterministic and the difference came from process history -- which is C19's statement, nobody else's.
+        iso = []
+        ndi = min(nd, 1500)
+        for jobs in (5, 16):
+            out = "build/tmp/iso-%s-%d.txt" % (prop, jobs)
+            r = sh([sims[first], "run", "--engine", engine, "--prop", prop, "--tier", tier, "--seed", str(SEED + 7919), "--runs", str(ndi), "--jobs", str(jobs), "--no-baseline", "--isolate",
+                    "--dump-hashes", out, "--out", "build/tmp/iso-%s.json" % prop, "--replay-dir", RPDIR, "--tree", tid], stdout=subprocess.PIPE, stderr=subprocess.DEVNULL, text=True)
+            if r.returncode == 0 and os.path.exists(out):
+                iso.append(open(out).read()); os.unlink(out)
+        if len(iso) == 2 and iso[0] == iso[1] and len(iso[0].splitlines()) == ndi:
+            history_dependent = "what a run does depends on which runs the same process executed before it (hashes agree when every run gets a process of its own, differ otherwise): the library carries state or reads residue across unrelated calls"
+            det["history_dependent_library"] = True
+            if prop == "C19":
+                path = RPDIR + "/C19-history-%d.json" % SEED
+                json.dump({"kind": "history", "property": "C19", "class": "depends-on-earlier-calls", "engine": engine, "tier": tier, "seed": SEED + 7919, "runs": ndi, "variant": first, "tree": tid}, open(path, "w"), indent=1)
+                print("VIOLATION property=C19 replay=%s" % path)
+                print("  class=depends-on-earlier-calls " + history_dependent)
+                violation = {"class": "depends-on-earlier-calls", "replay": path, "detail": history_dependent}
+            else:
+                print("OBSERVATION (not a violation of %s; it is what C19 is about): %s" % (prop, history_dependent))
+        else:
+            fault = det_fault
 
     # ---- evidence
     wall = time.time() - t0
@@ -342,6 +378,8 @@ def main():
         for o in obs:
             o.pop("plan", None)
         ev["coverage"]["unclaimed_observations"] = obs
+    if history_dependent:
+        ev["coverage"]["history_dependence_observed"] = history_dependent
     if violation:
         ev["coverage"]["violation"] = violation
     if fault:
